@@ -284,10 +284,15 @@ class Application(MutableMapping[str | AppKey[Any], Any]):
     def _add_subapp(
         self, resource_factory: Callable[[], _Resource], subapp: "Application"
     ) -> _Resource:
-        if self.frozen:
+        # pre_freeze() freezes the router: refuse before the factory prefixes
+        # the resources of subapp.
+        if self.pre_frozen:
             raise RuntimeError("Cannot add sub application to frozen application")
         if subapp.frozen:
             raise RuntimeError("Cannot add frozen application")
+        if subapp.pre_frozen:
+            # its resources already carry the prefix of the first mount
+            raise RuntimeError("Cannot add an application that is already mounted")
         resource = resource_factory()
         self.router.register_resource(resource)
         self._reg_subapp_signals(subapp)
